@@ -161,6 +161,8 @@ Proof.
   - unfold fund in H. inversion H; subst. left; reflexivity.
   - unfold slash_val in H. destruct (negb (has_val s v)); inversion H; subst; left; reflexivity.
   - unfold env_val in H. inversion H; subst. left; reflexivity.
+  - unfold exec_batch in H. guards H. inversion H; subst. left; reflexivity.
+  - unfold export_import in H. inversion H; subst. left; reflexivity.
   - apply end_block_spec in H. left. destruct H as (_ & _ & _ & _ & _ & G & _). rewrite G. reflexivity.
 Qed.
 
@@ -216,6 +218,8 @@ Proof.
   - unfold fund in H. inversion H; subst. left; reflexivity.
   - unfold slash_val in H. destruct (negb (has_val s v)); inversion H; subst; left; reflexivity.
   - unfold env_val in H. inversion H; subst. left; reflexivity.
+  - unfold exec_batch in H. guards H. inversion H; subst. left; reflexivity.
+  - unfold export_import in H. inversion H; subst. left; reflexivity.
   - apply end_block_spec in H. left. destruct H as (_ & _ & _ & _ & _ & _ & _ & B & _). exact B.
 Qed.
 
@@ -315,6 +319,8 @@ Proof.
   - exfalso. unfold fund in H. inversion H; subst; clear H. proj; congruence.
   - exfalso. unfold slash_val in H. destruct (negb (has_val s v)); inversion H; subst; clear H; unfold set_vals_deleg in *; proj; congruence.
   - exfalso. unfold env_val in H. inversion H; subst; clear H. unfold set_vals_deleg in *; proj; congruence.
+  - exfalso. unfold exec_batch in H. guards H. inversion H; subst; clear H. unfold set_objs in Hr'; proj; congruence.
+  - exfalso. pose proof (export_import_recs_sub _ _ _ _ I H Hr'). congruence.
   - right. apply end_block_spec in H. destruct H as (R & U & _).
     pose proof (R a) as Ra. rewrite Hr, Hr' in Ra. destruct Ra as [->|[_ ->]]; [congruence|].
     destruct (due_hit a s) eqn:EX.
@@ -380,6 +386,10 @@ Proof.
   - exfalso. unfold fund in H. inversion H; subst; clear H. proj; lia.
   - exfalso. unfold slash_val in H. destruct (negb (has_val s v)); inversion H; subst; clear H; unfold set_vals_deleg in *; proj; lia.
   - exfalso. unfold env_val in H. inversion H; subst; clear H. unfold set_vals_deleg in *; proj; lia.
+  - exfalso. unfold exec_batch in H. guards H. inversion H; subst; clear H. unfold set_objs in Lt; proj; lia.
+  - exfalso. destruct (recs s' a) as [r'|] eqn:Hr'.
+    + rewrite (export_import_recs_sub _ _ _ _ I H Hr') in Lt. lia.
+    + destruct (recs s a) as [r|] eqn:Hr; [specialize (NN _ eq_refl)|]; lia.
   - pose proof (end_block_spec _ _ _ _ _ H) as (R & _).
     pose proof (R a) as Ra. destruct (recs s a) as [r|] eqn:Hr, (recs s' a) as [r'|] eqn:Hr'; try tauto; try lia.
     destruct Ra as [->|[On ->]]; [lia|].
